@@ -421,3 +421,45 @@ Definition labels_eqb (a b : labels) : bool :=
   (l_neighbors a =? l_neighbors b) && (l_heteroatoms a =? l_heteroatoms b) && (l_hybridization a =? l_hybridization b) &&
   (l_explicit_h a =? l_explicit_h b).
 Definition brutto_eqb (a b : list (string * Z)) : bool := list_eqb (fun x y => String.eqb (fst x) (fst y) && (snd x =? snd y)) a b.
+
+(* compact observation codes: calc result (0 = None, h + 1, 7 = exception / out of range), bit mask of the hydrogen
+   counts 0..5 accepted by check_implicit *)
+Definition calc_code (r : pyres (option Z)) : Z :=
+  match r with
+  | Ok None => 0
+  | Ok (Some h) => if (0 <=? h) && (h <=? 5) then h + 1 else 7
+  | Err _ => 7
+  end.
+Definition mask_of (f : Z -> pyres bool) : Z :=
+  fold_left (fun acc h => match f h with Ok true => acc + 2 ^ h | Ok false => acc | Err _ => acc + 64 end) [0; 1; 2; 3; 4; 5] 0.
+Definition state_code (t : pyres rtable) (num chg : Z) (rad : bool) (e : env) : Z :=
+  calc_code (calc_env t num chg rad e) * 64 + mask_of (check_env t num chg rad e).
+(* one number per environment: the codes of all (charge, radical) states of one element, base 512 *)
+Definition env_digest (t : pyres rtable) (num : Z) (states : list (Z * bool)) (e : env) : Z :=
+  fold_left (fun acc cr => acc * 512 + state_code t num (fst cr) (snd cr) e) states 0.
+Fixpoint mismatches (i : nat) (a b : list Z) : list (nat * Z) :=
+  match a, b with
+  | x :: r, y :: s => if x =? y then mismatches (S i) r s else (i, x) :: mismatches (S i) r s
+  | [], [] => []
+  | _, _ => [(i, -1)]
+  end.
+
+(* per-atom observations of a printed molecule: calc_implicit as exception-or-code + check_implicit mask;
+   calc_labels (neighbors, heteroatoms, hybridization, explicit_hydrogens) *)
+Definition calc_obs (r : pyres (option Z)) : pyres Z := match r with Ok _ => Ok (calc_code r) | Err e => Err e end.
+Definition hyd_case (g : mol) (n : Z) (calc : pyres Z) (mask : Z) : bool :=
+  pyres_eqb Z.eqb (calc_obs (calc_implicit g n)) calc && (mask_of (check_implicit g n) =? mask).
+Definition lab_case (g : mol) (n : Z) (nb het hyb exh : Z) : bool :=
+  match calc_labels_atom g n with
+  | Ok l => labels_eqb l (mkLabels nb het hyb exh)
+  | Err _ => false
+  end.
+Definition totals_case (g : mol) (b : pyres (list (string * Z))) (chg : Z) (rad : bool) (mass : pyres Z) (cv : list Z) : bool :=
+  pyres_eqb brutto_eqb (brutto g) b && (molecular_charge g =? chg) && Bool.eqb (is_radical g) rad &&
+  pyres_eqb Z.eqb (molecular_mass_e24 g) mass && list_eqb Z.eqb (check_valence g) cv.
+(* fix_structure(): every atom recalculated; compared with the stored hydrogens of the rebuilt molecule *)
+Definition recalc_case (g : mol) (hs : list (option Z)) : bool :=
+  match fix_hydrogens g with
+  | Ok g' => list_eqb (option_eqb Z.eqb) (map (fun na => a_h (snd na)) (m_atoms g')) hs
+  | Err _ => false
+  end.
